@@ -112,6 +112,38 @@ def translateWith (fixed : Bool) (g : Graph) (start : Nat) (es : List Elem) : Ex
 /-- the current source -/
 def translate := translateWith true
 
+/-! ### the graph changes between translations -/
+
+/-- `AddressSpace::delete_reference(source, target, type)`: removes exactly that triple; true iff it existed -/
+def deleteRef (g : Graph) (s ty t : Nat) : Graph × Bool :=
+  ({ g with refs := g.refs.filter fun r => !(r.1 = s ∧ r.2.1 = ty ∧ r.2.2 = t) }, g.refs.contains (s, ty, t))
+
+/-- `find_aggregates_of`: targets of the references of `id` whose type is Aggregates (44) or a subtype -/
+def aggChildren (g : Graph) (id : Nat) : List Nat :=
+  (g.refs.filter fun r => r.1 = id ∧ tyMatches g 44 true r.2.1).map fun r => r.2.2
+
+/-- `AddressSpace::delete_visiting`: every node once (visited set), children first, then the node,
+then — with `delete_target_references` — every reference from or to it.  Returns the graph, the
+visited set and the function's result (`removed_node || removed_target_references`). -/
+def deleteVisiting : Nat → Graph → Nat → Bool → List Nat → Graph × List Nat × Bool
+  | 0, g, _, _, vis => (g, vis, false)
+  | f + 1, g, id, dtr, vis =>
+    if vis.contains id then (g, vis, false) else
+    let r := (aggChildren g id).foldl
+      (fun (acc : Graph × List Nat) c => let x := deleteVisiting f acc.1 c dtr acc.2; (x.1, x.2.1)) (g, id :: vis)
+    let g1 := r.1
+    let removedNode := (nodeName? g1.nodes id).isSome
+    let hadRefs := g1.refs.any fun e => e.1 = id ∨ e.2.2 = id
+    let g2 : Graph :=
+      { nodes := g1.nodes.filter fun n => n.1 ≠ id
+        refs := if dtr then g1.refs.filter fun e => !(e.1 = id ∨ e.2.2 = id) else g1.refs }
+    (g2, r.2, removedNode || (dtr && hadRefs))
+
+/-- `AddressSpace::delete(node, delete_target_references)` -/
+def deleteNode (g : Graph) (id : Nat) (dtr : Bool) : Graph × Bool :=
+  let r := deleteVisiting (g.refs.length + 1) g id dtr []
+  (r.1, r.2.2)
+
 /-- answer of the TranslateBrowsePathsToNodeIds service: a service fault, or one result per path -/
 inductive ReqOut where
   | fault (s : Status)
